@@ -22,6 +22,13 @@ pub trait Number: Sized + Copy {
     spec fn usize_spec(self) -> usize;
     fn usize(self) -> (r: usize)
         ensures r == self.usize_spec();
+    // Number::min_ / max_: the type's MIN / MAX constant (a non-null value; for floats NOT an infinity)
+    spec fn min_spec() -> Self;
+    fn min_() -> (r: Self)
+        ensures r == Self::min_spec(), !r.is_nanv();
+    spec fn max_spec() -> Self;
+    fn max_() -> (r: Self)
+        ensures r == Self::max_spec(), !r.is_nanv();
 }
 impl Number for f64 {
     open spec fn rval(self) -> real { rv(self) }
@@ -40,6 +47,12 @@ impl Number for f64 {
     open spec fn usize_spec(self) -> usize { f64_usize(self) }
     #[verifier::external_body]
     fn usize(self) -> (r: usize) { self as usize }
+    uninterp spec fn min_spec() -> f64;
+    #[verifier::external_body]
+    fn min_() -> (r: f64) { f64::MIN }
+    uninterp spec fn max_spec() -> f64;
+    #[verifier::external_body]
+    fn max_() -> (r: f64) { f64::MAX }
 }
 impl Number for usize {
     open spec fn rval(self) -> real { self as real }
@@ -58,6 +71,12 @@ impl Number for usize {
     open spec fn usize_spec(self) -> usize { self }
     #[verifier::external_body]
     fn usize(self) -> (r: usize) { self }
+    open spec fn min_spec() -> usize { usize::MIN }
+    #[verifier::external_body]
+    fn min_() -> (r: usize) { usize::MIN }
+    open spec fn max_spec() -> usize { usize::MAX }
+    #[verifier::external_body]
+    fn max_() -> (r: usize) { usize::MAX }
 }
 impl Number for i64 {
     open spec fn rval(self) -> real { self as real }
@@ -76,6 +95,12 @@ impl Number for i64 {
     open spec fn usize_spec(self) -> usize { self as usize }
     #[verifier::external_body]
     fn usize(self) -> (r: usize) { self as usize }
+    open spec fn min_spec() -> i64 { i64::MIN }
+    #[verifier::external_body]
+    fn min_() -> (r: i64) { i64::MIN }
+    open spec fn max_spec() -> i64 { i64::MAX }
+    #[verifier::external_body]
+    fn max_() -> (r: i64) { i64::MAX }
 }
 
 pub trait IsNone: Sized + Copy {
